@@ -625,3 +625,26 @@ MUTATIONS += [
     dict(id="C07-has-only-while-collecting", prop="C07", file="crates/core/src/index/indexer.rs", old="        self.indexed\n            .as_ref()\n            .is_some_and(|indexed| indexed.contains(&(tpe, *id)))", new="        self.count > 0\n            && self\n                .indexed\n                .as_ref()\n                .is_some_and(|indexed| indexed.contains(&(tpe, *id)))"),
     dict(id="C02-marked-only-index-not-saved", prop="C02", file="crates/core/src/index/indexer.rs", old="        if (self.file.packs.len() + self.file.packs_to_delete.len()) > 0 {", new="        if !self.file.packs.is_empty() {"),
 ]
+
+PKR13 = "crates/core/src/blob/packer.rs"
+MUTATIONS += [
+    # the writer thread swallows a failed pack write (only successfully written packs are indexed, the status stays Ok)
+    dict(id="C03-writer-thread-skips-failed-pack", prop="C03", file=PKR13, old="                    .try_for_each(|index| fwh.index(index?));", new="                    .try_for_each(|index| { if let Ok(index) = index { fwh.index(index)?; } Ok(()) });"),
+    # the writer thread always reports success
+    dict(id="C03-writer-thread-reports-ok", prop="C03", file=PKR13, old="                    .try_for_each(|index| fwh.index(index?));\n                _ = finish_tx.send(status);", new="                    .try_for_each(|index| fwh.index(index?));\n                let _unused = status;\n                _ = finish_tx.send(Ok(()));"),
+]
+HARMLESS += [
+    dict(id="H-C03-writer-status-typed", prop="C03", file=PKR13, old="                let status = rx\n                    .into_iter()\n                    .readahead_scoped(scope)\n                    .map(", new="                let status: RusticResult<()> = rx\n                    .into_iter()\n                    .readahead_scoped(scope)\n                    .map("),
+]
+
+BS13 = "crates/core/src/index/binarysorted.rs"
+MUTATIONS += [
+    # pack iteration hands every blob back typed Data
+    dict(id="C17-packs-back-all-typed-data", prop="C17", file=BS13, old="                    id: entry.id,\n                    tpe: self.tpe,", new="                    id: entry.id,\n                    tpe: BlobType::Data,"),
+    # pack iteration stops one blob early
+    dict(id="C17-packs-back-last-blob-dropped", prop="C17", file=BS13, old="            while *idx < entries.len() && entries[*idx].pack_idx == *pack_idx {", new="            while *idx + 1 < entries.len() && entries[*idx].pack_idx == *pack_idx {"),
+]
+HARMLESS += [
+    # entries from *idx on never belong to an earlier pack: `<=` selects the same run
+    dict(id="H-C17-packs-back-le", prop="C17", file=BS13, old="            while *idx < entries.len() && entries[*idx].pack_idx == *pack_idx {", new="            while *idx < entries.len() && entries[*idx].pack_idx <= *pack_idx {"),
+]
